@@ -9,12 +9,19 @@
 //        | [1, src, net, maxlen, asn]            RpkiTable::remove
 //        | [2, src]                              RpkiTable::drop_source
 //        | [3, src, [[net, maxlen, asn], ...]]   drop_source + inserts (= TableManager::rpki_reset)
-//        | [4, net, local_asn, [[code, [bytes]], ...]]   RpkiTable::validate
+//        | [4, net, local_asn, [[code, [bytes]], ...]]   RpkiTable::validate, and the policy consumer:
+//                                                 apply_import of three import assignments, each one policy
+//                                                 with one statement `Condition::Rpki(state) -> accept`
+//                                                 (default reject), on the same table / route / attributes
+//          net may also be a non-IP NLRI of the same prefix: [14|16, octets, mask] labeled unicast,
+//          [24|26, octets, mask] VPN (validate must give no result for them)
 //        | [5]                                   RpkiTable::iter, both families
 //   observation per op:
 //     mutations and [5]:  [vrp, ...]   vrp = [4|6, [octets], mask, maxlen, asn, src]   (IPv4 first)
-//     validate:           [] for None, [[state, reason, matched, unmatched_asn, unmatched_length]]
+//     validate:           [v, [p_notfound, p_valid, p_invalid]]
+//                         v = [] for None, [[state, reason, matched, unmatched_asn, unmatched_length]]
 //                         state NotFound=0 Valid=1 Invalid=2, reason None=0 Asn=1 Length=2
+//                         p_x = 1 when the statement `rpki x -> accept` accepted the route
 use std::net::{IpAddr, Ipv4Addr, Ipv6Addr};
 use std::sync::Arc;
 
@@ -48,10 +55,65 @@ fn ipnet_of(v: &Val) -> packet::IpNet {
 }
 
 fn nlri_of(v: &Val) -> packet::Nlri {
-    match addr_of(v.at(0).int(), &v.at(1).bytes()) {
-        IpAddr::V4(addr) => packet::Nlri::V4(packet::bgp::Ipv4Net { addr, mask: v.at(2).u8() }),
-        IpAddr::V6(addr) => packet::Nlri::V6(packet::bgp::Ipv6Net { addr, mask: v.at(2).u8() }),
+    let tag = v.at(0).int();
+    let labels = || packet::mpls::MplsLabelStack::new(vec![packet::mpls::MplsLabel::new(100)]);
+    let rd = packet::rd::RouteDistinguisher::TwoOctetAs { admin: 65000, assigned: 1 };
+    match addr_of(tag % 10, &v.at(1).bytes()) {
+        IpAddr::V4(addr) => {
+            let prefix = packet::bgp::Ipv4Net { addr, mask: v.at(2).u8() };
+            match tag {
+                4 => packet::Nlri::V4(prefix),
+                14 => packet::Nlri::LabeledV4(packet::labeled::LabeledV4Nlri { labels: labels(), prefix }),
+                _ => packet::Nlri::VpnV4(packet::vpn::VpnV4Nlri { labels: labels(), rd, prefix }),
+            }
+        }
+        IpAddr::V6(addr) => {
+            let prefix = packet::bgp::Ipv6Net { addr, mask: v.at(2).u8() };
+            match tag {
+                6 => packet::Nlri::V6(prefix),
+                16 => packet::Nlri::LabeledV6(packet::labeled::LabeledV6Nlri { labels: labels(), prefix }),
+                _ => packet::Nlri::VpnV6(packet::vpn::VpnV6Nlri { labels: labels(), rd, prefix }),
+            }
+        }
     }
+}
+
+/// three import assignments: `rpki <state> -> accept`, default reject
+fn rpki_assignments() -> Vec<Arc<table::PolicyAssignment>> {
+    let mut pt = table::PolicyTable::new();
+    let mut out = Vec::new();
+    for (k, st) in [
+        RpkiValidationState::NotFound,
+        RpkiValidationState::Valid,
+        RpkiValidationState::Invalid,
+    ]
+    .into_iter()
+    .enumerate()
+    {
+        let sname = format!("s{}", k);
+        let pname = format!("p{}", k);
+        pt.add_statement(
+            &sname,
+            vec![table::ConditionConfig::Rpki(st)],
+            Some(table::Disposition::Accept),
+            table::Actions::default(),
+        )
+        .ok()
+        .expect("add_statement");
+        pt.add_policy(&pname, vec![sname]).ok().expect("add_policy");
+        let a = pt
+            .build_assignment(
+                None,
+                "verif",
+                table::PolicyDirection::Import,
+                table::Disposition::Reject,
+                vec![pname],
+            )
+            .ok()
+            .expect("build_assignment");
+        out.push(a);
+    }
+    out
 }
 
 fn src_index(srcs: &[Arc<IpAddr>], s: &Arc<IpAddr>) -> Val {
@@ -95,6 +157,7 @@ fn run_case(case: &Val) -> Val {
         .map(|i| Arc::new(IpAddr::V4(Ipv4Addr::new(192, 0, 2, (i / 2) as u8))))
         .collect();
     let mut t = RpkiTable::new();
+    let assignments = rpki_assignments();
     let mut obs = Vec::new();
     for op in case.list() {
         match op.at(0).int() {
@@ -140,8 +203,9 @@ fn run_case(case: &Val) -> Val {
                     }
                 }
                 let attrs = Arc::new(attrs);
-                let r = t.validate(&source, &nlri_of(op.at(1)), &attrs);
-                obs.push(Val::opt(r.map(|r| {
+                let nlri = nlri_of(op.at(1));
+                let r = t.validate(&source, &nlri, &attrs);
+                let vobs = Val::opt(r.map(|r| {
                     let st = match r.state {
                         RpkiValidationState::NotFound => 0u8,
                         RpkiValidationState::Valid => 1,
@@ -162,7 +226,16 @@ fn run_case(case: &Val) -> Val {
                         l(&r.unmatched_asn),
                         l(&r.unmatched_length),
                     ])
-                })));
+                }));
+                let mut pol = Vec::new();
+                for a in &assignments {
+                    let mut nh = None;
+                    // as TableManager::apply_import: the table is handed over only when the assignment needs it
+                    let rp = a.needs_rpki.then_some(&t);
+                    let (filtered, _) = table::apply_import(a, rp, &source, &nlri, &attrs, &mut nh);
+                    pol.push(Val::b(!filtered));
+                }
+                obs.push(Val::L(vec![vobs, Val::L(pol)]));
             }
             5 => obs.push(dump(&srcs, &t)),
             k => panic!("verif: bad op tag {}", k),
